@@ -135,6 +135,7 @@ fn settings(c: &Cfg) -> ServiceSettings {
             Strategy::FollowDiscard => RStrategy::FollowDiscard,
             Strategy::RetryThenDiscard => RStrategy::RetryThenDiscard,
             Strategy::RetryThenFail => RStrategy::RetryThenFail,
+            Strategy::RetryConsume => RStrategy::RetryConsume,
         },
     }
 }
@@ -249,11 +250,7 @@ impl H {
         let real = new_world(cfg).map_err(|e| Fail::new("setup", "new_sys", e))?;
         let mut s = Sys { cfg: cfg.clone(), mode: mode(), control, real: Some(real), m: Model::new(cfg), ops: Vec::new(), diverged: false, in_finish: false, strict_lost: false };
         for op in start_ops(cfg) {
-            let t = std::time::Instant::now();
             self.step(&mut s, &op)?;
-            if std::env::var("HPS_VERBOSE2").is_ok() {
-                println!("      start {op:?}: {:?}", t.elapsed());
-            }
         }
         // the creates of the prefix do not count against the per-execution cap
         s.m.creates_pub = 0;
@@ -355,7 +352,7 @@ impl H {
             .find_map(|(&q, _)| s.m.holders(q).first().map(|h| (q, *h)));
         if let Some((q, holder)) = clash {
             let own = if holder == "undelivered buffer entry" || holder == "history" { Own::C02Delivery } else { Own::C02 };
-            flag!(self, s, own, "c02-chunk-reused", format!("{what}: chunk still referenced by: {holder}"), "the payload address handed out is the one of sample #{q}, which is still referenced ({:?})", s.m.holders(q));
+            flag!(self, s, own, "c02-chunk-reused", format!("chunk still referenced by: {holder}"), "the payload address handed out by a {what} is the one of sample #{q}, which is still referenced ({:?})", s.m.holders(q));
         }
         Ok(())
     }
@@ -386,7 +383,7 @@ impl H {
 
     fn check_send(&self, s: &mut Sys, i: usize, e: &SendExpect, r: Result<usize, SendError>, what: &str) -> Result<(), Fail> {
         let pid = s.m.p(i).id;
-        let mut log: Vec<(u128, u64)> = real::take_handler_log().into_iter().filter(|x| x.0 == pid).map(|x| (x.1, x.2)).collect();
+        let mut log: Vec<(u128, u64)> = real::take_handler_log().into_iter().filter(|x| x.sender == pid).map(|x| (x.receiver, x.retries)).collect();
         let expected = if e.unable_to_deliver { Err(SendError::UnableToDeliver) } else { Ok(e.recipients) };
         if r != expected {
             flag!(self, s, Own::C01, "c01-recipient-count", send_site(&s.cfg, what), "send returned {r:?}, the model expects {expected:?}");
@@ -401,12 +398,75 @@ impl H {
         Ok(())
     }
 
-    fn do_send(&self, s: &mut Sys, i: usize, l: usize) -> Result<(), Fail> {
+    /// model side of a send (after the real call) for both kinds of strategies
+    fn judge_send(&self, s: &mut Sys, i: usize, seq: Seq, r: Result<usize, SendError>, what: &str) -> Result<(), Fail> {
         let cfg = s.cfg.clone();
+        if cfg.strategy != Strategy::RetryConsume || cfg.overflow {
+            let e = s.m.send(&cfg, i, seq);
+            return self.check_send(s, i, &e, r, what);
+        }
+        // RetryUntilDelivered with a handler that lets the blocking subscriber consume: the send blocks
+        // until that subscriber has made room; what it consumed meanwhile is in the handler log
+        let pid = s.m.p(i).id;
+        let pinst = s.m.p(i).inst;
+        let log: Vec<real::HandlerCall> = real::take_handler_log().into_iter().filter(|x| x.sender == pid).collect();
+        s.m.begin_send(&cfg, i, seq);
+        let mut recipients = 0;
+        let mut used = 0;
+        for j in s.m.alive_subs() {
+            let (sinst, sid) = (s.m.s(j).inst, s.m.s(j).id);
+            let k = s.m.conn_idx(pinst, sinst).expect("model: connection missing after pub_update");
+            if Model::enqueue(&mut s.m.conns[k], seq, false) {
+                recipients += 1;
+                continue;
+            }
+            if !s.m.conns[k].sub_side {
+                continue;
+            }
+            let calls: Vec<&real::HandlerCall> = log.iter().filter(|c| c.receiver == sid).collect();
+            let mut n = 0;
+            loop {
+                let Some(call) = calls.get(n) else {
+                    flag!(self, s, Own::C01, "c01-backpressure-handler", send_site(&s.cfg, what), "the buffer of a subscriber is full but the backpressure handler was called only {n} times for it: the send did not block until delivery");
+                };
+                used += 1;
+                if call.retries != n as u64 {
+                    flag!(self, s, Own::C01, "c01-backpressure-handler", send_site(&s.cfg, what), "retries of the {n}-th handler call is {}", call.retries);
+                }
+                let consumed = call.consumed.clone().unwrap_or(Ok(None));
+                let made_progress = matches!(consumed, Ok(Some(_)));
+                self.judge_receive(s, j, consumed, false)?;
+                if s.diverged {
+                    return Ok(());
+                }
+                n += 1;
+                let k = s.m.conn_idx(pinst, sinst).expect("model: connection vanished");
+                if !made_progress {
+                    // the handler answered DiscardData: documented loss
+                    break;
+                }
+                if Model::enqueue(&mut s.m.conns[k], seq, false) {
+                    recipients += 1;
+                    break;
+                }
+            }
+            if calls.len() != n {
+                flag!(self, s, Own::C01, "c01-backpressure-handler", send_site(&s.cfg, what), "{} handler calls for one subscriber, the model expects {n}", calls.len());
+            }
+        }
+        if used != log.len() {
+            flag!(self, s, Own::C01, "c01-backpressure-handler", send_site(&s.cfg, what), "{} handler calls, only {used} of them for subscribers with a full buffer", log.len());
+        }
+        if r != Ok(recipients) {
+            flag!(self, s, Own::C01, "c01-recipient-count", send_site(&s.cfg, what), "send returned {r:?}, the model expects Ok({recipients})");
+        }
+        Ok(())
+    }
+
+    fn do_send(&self, s: &mut Sys, i: usize, l: usize) -> Result<(), Fail> {
         let seq = s.m.pubs[i].as_mut().unwrap().loans.remove(l);
-        let e = s.m.send(&cfg, i, seq);
         let r = s.real().send(i, l);
-        self.check_send(s, i, &e, r, "send")
+        self.judge_send(s, i, seq, r, "send")
     }
 
     fn do_send_copy(&self, s: &mut Sys, i: usize, site: &str) -> Result<(), Fail> {
@@ -429,16 +489,21 @@ impl H {
             }
         }
         s.m.seqs.insert(seq, model::SeqInfo { addr, uh: uh_used, ..info });
-        let e = s.m.send(&cfg, i, seq);
-        self.check_send(s, i, &e, r, "send_copy")
+        self.judge_send(s, i, seq, r, "send_copy")
     }
 
     fn do_receive(&self, s: &mut Sys, j: usize) -> Result<(), Fail> {
+        let r = s.real().receive(j);
+        self.judge_receive(s, j, r, true)
+    }
+
+    /// compares the result of a receive of subscriber j with the model; `hold`: the sample is kept
+    /// (otherwise it was dropped right away by whoever received it)
+    fn judge_receive(&self, s: &mut Sys, j: usize, r: Result<Option<Recv>, ReceiveError>, hold: bool) -> Result<(), Fail> {
         let keep = s.mode == Mode::C01;
         let cfg = s.cfg.clone();
         s.m.sub_update(j, keep);
         let exp = s.m.recv_expect(&cfg, j, s.strict_lost);
-        let r = s.real().receive(j);
         match r {
             Err(ReceiveError::ExceedsMaxBorrows) => {
                 if exp != RecvExpect::ExceedsMaxBorrows {
@@ -459,11 +524,11 @@ impl H {
                     flag!(self, s, Own::C01, "c01-lost-sample", site, "receive returned None although samples {pending:?} were sent to this subscriber while it was registered (reported as delivered) and were never received")
                 }
             },
-            Ok(Some(rv)) => self.classify(s, j, &exp, &rv),
+            Ok(Some(rv)) => self.classify(s, j, &exp, &rv, hold),
         }
     }
 
-    fn classify(&self, s: &mut Sys, j: usize, exp: &RecvExpect, rv: &Recv) -> Result<(), Fail> {
+    fn classify(&self, s: &mut Sys, j: usize, exp: &RecvExpect, rv: &Recv, hold: bool) -> Result<(), Fail> {
         let sinst = s.m.s(j).inst;
         let Some(&pinst) = s.m.pub_ids.get(&rv.origin) else {
             flag!(self, s, Own::C01, "c01-origin", "receive: origin", "origin() is not the id of any publisher of this service");
@@ -510,8 +575,12 @@ impl H {
         let c = &mut s.m.conns[k];
         c.fifo.pop_front();
         c.received.push(seq);
-        c.borrowed += 1;
-        s.m.subs[j].as_mut().unwrap().held.push(HeldM { pub_inst: pinst, sub_inst: sinst, seq });
+        if hold {
+            c.borrowed += 1;
+            s.m.subs[j].as_mut().unwrap().held.push(HeldM { pub_inst: pinst, sub_inst: sinst, seq });
+        } else {
+            s.m.gc_conns();
+        }
         Ok(())
     }
 
@@ -744,7 +813,7 @@ impl H {
             let e = err.unwrap_or(LoanError::InternalFailure);
             return self.loan_failure(s, e, &format!("loan probe {when}"), format!("only {} of the {want} free loans could be taken ({outstanding} outstanding)", addrs.len()));
         }
-        if addrs.len() > want || err != Some(LoanError::ExceedsMaxLoans) {
+        if s.mode == Mode::C08 && (addrs.len() > want || err != Some(LoanError::ExceedsMaxLoans)) {
             flag!(self, s, Own::C08, "c08-limit-error", "Loan beyond max_loaned_samples", "with {outstanding} loans outstanding {} more loans were granted (limit {}), then {err:?}; documented: ExceedsMaxLoans", addrs.len(), s.cfg.loans);
         }
         Ok(())
@@ -997,14 +1066,16 @@ impl Harness for H {
 
     fn rule(&self) -> String {
         format!(
-            "every sequence of API calls up to the depth of the configuration (chosen from an estimate of the branching so that a \
-             configuration has a few thousand maximal sequences in quick) after a checked start prefix, on the real ports of one service, \
-             single-threaded; alphabet by focus: CreatePub/DropPub/CreateSub/DropSub (lowest free slot, capped per execution), Loan \
+            "tree: every sequence of API calls up to the depth of the configuration (4..7 quick, 5..8 thorough; chosen from an estimate \
+             of the branching so that a configuration has a few thousand / ~10^5 maximal sequences) after a checked start prefix, on \
+             the real ports of one service, single-threaded; then frontier mode over distinct model states (depth <= 10 quick, 12 \
+             thorough). Alphabet by focus: CreatePub/DropPub/CreateSub/DropSub (lowest free slot, capped per execution), Loan \
              (loan+write), Send(l)/DropLoan(l) for the first/last outstanding loan, SendCopy, Receive (keeps the sample), DropSample \
              (first/last), UpdPub/UpdSub where they change a connection, DropOrphan (sample whose subscriber is gone), \
              ZombieSend/ZombieDrop (loan whose publisher is gone); with --prop C08 FillBuffers/BorrowMax/LoanMax replace \
-             SendCopy/Loan. A state is the canonical reference model (ports, per-pair FIFOs, history, loans, held samples; sequence \
-             numbers and instances by rank). {}",
+             SendCopy/Receive/Loan. Every execution ends with a worst-case saturation of every publisher (C02, C08) or a demand of \
+             everything still owed (C01). A state is the canonical reference model (ports, per-pair FIFOs, history, loans, held \
+             samples; sequence numbers and instances by rank). {}",
             cfg::RULE
         )
     }
